@@ -271,6 +271,11 @@ def main(argv=None):
         if r['verdict'] == 'unsat': discharged.append((o, r))
         elif r['verdict'] == 'sat': refuted.append((o, r))
         else: undecided.append((o, r))
+    for o, r in list(refuted):
+        if o['kind'] == 'type-decl':
+            refuted.remove((o, r))
+            limits.append({'contract': o['func'], 'tool_limit': 'the contract file declares a field type that the code does not respect: ' + o['name']})
+            print('TOOL-LIMIT %s: declared field type excludes None but the code may store None (%s)' % (o['func'], o['name']))
     for o, r in disagreements:
         print('ENGINE-SELF-CHECK failed: solvers disagree on %s: %s' % (o['name'], r['disagreement'])); exit_code = 3
     # ---- refutation by small-scope unrolling for functions with undecided obligations (exact executions, no invariants)
